@@ -400,11 +400,78 @@ TUPLES = ['flatten|map', 'flatten|reg_nt', 'map|reg_nt', 'flatten2|reg_nt', 'ins
           'eq|hash|repr', 'shared_iter', 'same_registration', 'registry_change_of_flattened_type']
 
 
+def preemptive(req):
+    """randomized pre-emptive supplement: many threads, microsecond switch interval, same solo oracle"""
+    import faulthandler
+    import random
+
+    import optree
+    from vlib import universe as U
+    names = ['flatten|map', 'unflatten|flatten', 'eq|hash', 'repr|pickle', 'iter|with_path', 'broadcast|inspect',
+             'flatten2|reg_nt', 'unflatten|reg_meta']
+    table = []
+    for n in names:
+        ops, _check, solo = build_ops(n)
+        for k, f in ops.items():
+            table.append((f'{n}:{k}', f, solo[k]))
+    fails = []
+    old = sys.getswitchinterval()
+    sys.setswitchinterval(1e-6)
+    faulthandler.dump_traceback_later(120, exit=True)
+    try:
+        def body(i):
+            rnd = random.Random(req['seed'] * 1000 + i)
+            for _ in range(req['iters']):
+                name, f, solo = table[rnd.randrange(len(table))]
+                r = _solo(f)
+                if r != solo:
+                    fails.append((f'preemptive/result_differs/{name.split(":")[0]}', f'{name}: {r!r} vs solo {solo!r}'))
+        ths = [threading.Thread(target=body, args=(i,), daemon=True) for i in range(req['threads'])]
+        for t in ths:
+            t.start()
+        for t in ths:
+            t.join(110)
+        if any(t.is_alive() for t in ths):
+            fails.append(('preemptive/wedge', 'threads still alive after 110 s'))
+        # shared iterator under pre-emption
+        for round_ in range(20):
+            L = [U.Leaf(i) for i in range(50)]
+            tree = [L[:10], {'a': L[10:30], 'b': (L[30:40], U.FN(L[40:], None))}]
+            it = optree.tree_iter(tree, is_leaf=lambda x: False, namespace=U.NSF)
+            outs = [[] for _ in range(req['threads'])]
+
+            def consume(i):
+                for x in it:
+                    outs[i].append(x.n)
+            ths = [threading.Thread(target=consume, args=(i,), daemon=True) for i in range(req['threads'])]
+            for t in ths:
+                t.start()
+            for t in ths:
+                t.join(60)
+            got = sorted(x for o in outs for x in o)
+            if got != list(range(50)):
+                fails.append(('preemptive/shared_iter', f'round {round_}: {got}'))
+    finally:
+        faulthandler.cancel_dump_traceback_later()
+        sys.setswitchinterval(old)
+    return {'schedules': req['threads'] * req['iters'], 'nontrivial': req['threads'] * req['iters'], 'fails': fails[:20],
+            'exhausted': False, 'max_points': 1}
+
+
 def worker_main():
     import faulthandler
     setup_worker()
     for line in sys.stdin:
         req = json.loads(line)
+        if req.get('preemptive'):
+            runner.journal(req)
+            try:
+                res = preemptive(req)
+            except BaseException as e:  # noqa: BLE001
+                res = {'schedules': 0, 'nontrivial': 0, 'fails': [('harness', f'{type(e).__name__}: {e}')], 'exhausted': False, 'max_points': 0}
+            sys.stdout.write(json.dumps(res) + '\n')
+            sys.stdout.flush()
+            continue
         name, cap = req['tuple'], req['cap']
         fails = []
         n_sched = n_nontrivial = 0
@@ -553,6 +620,8 @@ class C17(runner.Prop):
         for i, t in enumerate(TUPLES):
             if i % ctx.nshards == ctx.shard:
                 ctx.run_case({'tuple': t, 'cap': cap})
+        ctx.run_case({'tuple': 'preemptive', 'preemptive': True, 'threads': 8, 'iters': 150 if ctx.tier == 'quick' else 3000,
+                      'seed': ctx.seed * 100 + ctx.shard})
         ctx.extra_cov['states'] = len(TUPLES)
         if C17._w is not None:
             C17._w.close()
